@@ -78,7 +78,8 @@ fn float_close(a: f64, b: f64) -> bool {
         return a.is_nan() && b.is_nan();
     }
     if a == b {
-        return true;
+        // the sign of a zero is part of the value (1/x, atan2 and signum see it)
+        return a != 0.0 || a.is_sign_negative() == b.is_sign_negative();
     }
     if a.is_infinite() || b.is_infinite() || a.is_sign_negative() != b.is_sign_negative() {
         return false;
